@@ -35,9 +35,13 @@ func replay(cfg *lib.Config, res *lib.Result) {
 	cf := &lib.CasesFile{Imports: []string{"Model.Base", "Model.StringHash", "Corr.CorrC09"}, Typ: "list op * list out",
 		Obligations: map[string]string{"stringhash_model": "sh_mismatches cases"}}
 	ccf := newCollCases()
+	kf := newKeyCases()
 	defer func() {
 		if len(ccf.Cases) > 0 {
 			res.CorrFiles = append(res.CorrFiles, ccf.WriteTo(cfg.Out, "cases_coll"))
+		}
+		if len(kf.Cases) > 0 {
+			res.CorrFiles = append(res.CorrFiles, kf.WriteTo(cfg.Out, "cases_key"))
 		}
 	}()
 	for _, in := range lib.ReplayInputs(cfg.Replay) {
@@ -48,6 +52,10 @@ func replay(cfg *lib.Config, res *lib.Result) {
 		lib.Remarshal(in, &x)
 		if x.Kind == "coll" {
 			replayColl(cfg, res, in, ccf)
+			continue
+		}
+		if x.Kind == "key" {
+			replayKey(cfg, res, in, kf, ccf)
 			continue
 		}
 		if x.Kind != "stringhash" {
@@ -126,7 +134,7 @@ func runStringHash(cfg *lib.Config, res *lib.Result, rng *lib.Rng) {
 		}
 		if bad >= 0 {
 			res.Violate(lib.Violation{Clause: "stringhash-abstract-map",
-				What: fmt.Sprintf("step %d %s returned %s, the insertion-ordered map returns %s", bad, ops[bad], c.outs[bad], want),
+				What:  fmt.Sprintf("step %d %s returned %s, the insertion-ordered map returns %s", bad, ops[bad], c.outs[bad], want),
 				Input: map[string]interface{}{"kind": "stringhash", "ops": ops[:bad+1]}, Tags: shTags(ops, bad)})
 		}
 		if toCoq || (bad >= 0 && len(res.Violations) <= 20) {
